@@ -321,6 +321,33 @@ def run(ck):
                 ck.check(user == ["h_" + ev], "C12.R4", "CallbackList.%s reaches the function of a LambdaCallback in the list" % ev, cbl.module.relpath + ":CallbackList",
                          "a CallbackList holding one LambdaCallback calls %s for %s; expected its function for that event exactly once (hooks installed per instance are hooks too)" % (user, ev),
                          key="C12.R4|CallbackList|lambda %s" % ev)
+    # ... and a callback put into the list after its construction (insert; append / extend / += go through it) is in the list
+    with ck.guard("C12.R4", "CallbackList/inserted later"):
+        def th5(it):
+            fns = {}
+            for ev in P.EVENTS:
+                f = VUnknown("k_%s" % ev, "unknown")
+                f.callable = True
+                f.not_none = True
+                fns[ev] = f
+            cb = it.instantiate(lam, [], dict(fns), None)
+            lst = it.instantiate(cbl, [it.new_list([])], {}, None)
+            call(it, lst, "insert", VConst(0), cb)
+            st = VUnknown("nn_state", "unknown")
+            rec = {}
+            for ev in ("on_train_start", "on_epoch_end"):
+                a = [st, VNum("int", T.sym("epoch"), pos=True), VNum("int", T.sym("batch"), nonneg=True)][:NARGS[ev]]
+                n0 = len(getattr(it, "opaque_log", []))
+                call(it, lst, ev, *a)
+                rec[ev] = [u for u in getattr(it, "opaque_log", [])[n0:]]
+            return rec
+
+        for p in [q for q in paths_of(prog, th5, max_paths=40, sticky=True) if q.outcome == "return"]:
+            for ev, calls_ in p.value.items():
+                user = [str(u[0]) for u in calls_ if str(u[0]).startswith("k_")]
+                ck.check(user == ["k_" + ev], "C12.R4", "CallbackList.insert: the callback receives %s" % ev, cbl.module.relpath + ":CallbackList.insert",
+                         "a callback inserted into an existing CallbackList is called %s for %s; expected once (insert does not reach the list the events are dispatched from: append, extend, += and "
+                         "fit(time=True)'s Timer are lost with it)" % (user, ev), key="C12.R4|CallbackList|insert %s" % ev)
     with ck.guard("C12.R4", "LambdaCallback/validation"):
         paths = paths_of(prog, th2, max_paths=200)
         rets = [p for p in paths if p.outcome == "return"]
